@@ -492,11 +492,11 @@ PROPS["C20"] = {
 }
 
 PROPS["C19"] = {
-    "lean": ["TinkVerif.Props.C19", "TinkVerif.Props.C19Class", "TinkVerif.Props.C19Facts"],
+    "lean": ["TinkVerif.Props.C19", "TinkVerif.Props.C19Trace", "TinkVerif.Props.C19Class", "TinkVerif.Props.C19Facts"],
     "theorems": T("TinkVerif.Heap", "clone_frame concat_frame concat_read append_in_place_iff append_realloc_frame "
                   "append_spare_capacity_written append_read mutate_ownedContents mutations_ownedContents clean_caller_view "
                   "clean_guard_regions clean_result_mutation_harmless clean_result_not_owned cloningCtor_clean "
-                  "retainingCtor_not_clean appendingOp_not_clean") +
+                  "retainingCtor_not_clean appendingOp_not_clean known_disjoint_owned noninterference noninterference_init") +
                 T("TinkVerif.Gen.SliceFacts", "facts_classified scan_coverage"),
     "harness": [{"name": "c19", "timeout": 3000}],
     "reports": ["Reports/C19.lean"],
@@ -517,8 +517,10 @@ PROPS["C19"] = {
     "manifest": {
         "text": "Partial. Theorems (heap model of Go slices): Clone/Concat never write an existing array; append writes the argument's "
                 "array iff the result fits its capacity, and then exactly the spare bytes after len (the defect shape); in both cases the "
-                "value is the concatenation (why tests cannot see it); caller mutations of any caller-visible array never change library-"
-                "owned state when every operation is Clean; a cloning constructor is Clean, a retaining constructor and an appending "
+                "value is the concatenation (why tests cannot see it); for every history of calls with arbitrary caller mutations interleaved (inputs after the "
+                "call, spare capacity, returned slices), every call of a Clean, deterministic library returns what it returns in the "
+                "mutation-free history (`noninterference`), and the caller never holds a reference into library state "
+                "(`known_disjoint_owned`); a cloning constructor is Clean, a retaining constructor and an appending "
                 "operation are not. REGENERATED on every run: all uses of []byte parameters as append/copy/store/writer destinations, "
                 "retention into structs, returns of receiver fields — each classified in Lean, `facts_classified` decided by the kernel. "
                 "Tie: guard-region differential harness over the public API.",
